@@ -34,12 +34,34 @@ def varlist(c, name="variables"):
     return vs
 
 
+DOMJ = sym.fn("DOMJ", sym.Ref, sym.Name, sym.EnvSort, sym.PVSort, sym.B)    # the Jacobian entry built for (e, w) is in-domain
+
+
 def entry_ok(sp, e, wk, elem):
-    """What one row entry must satisfy (column of variable name wk)."""
-    return [z3.Implies(sp.reg(e, wk, sp.E, sp.PVX), sp.den(elem, sp.E, sp.PVX) == sp.dv(e, wk, sp.E, sp.PVX)), sp.wf(elem)]
+    """What one row entry must satisfy (column of variable name wk): G1, well-formedness, and no variable that e lacks."""
+    from .problem_c import NM
+    nm = NM(sp.ip)
+    return [z3.Implies(sp.reg(e, wk, sp.E, sp.PVX), sp.den(elem, sp.E, sp.PVX) == sp.dv(e, wk, sp.E, sp.PVX)), sp.wf(elem),
+            z3.Implies(sp.occ(elem, nm), sp.occ(e, nm))]
 
 
-def row_value(sp, e, vs, allow_none=True):
+def entry_facts(sp, e, wk, elem, guard, name_domain=False):
+    """The same, as assumptions about an entry promised by a contract (the third clause for every name of interest)."""
+    from .problem_c import forall_name
+    p = sp.ip.path
+    S_ = sp.S
+    re_, rl_ = sp.ref(e), sp.ref(elem)
+    E_, PV_ = sp.E, sp.PVX
+    # raw spec symbols for e (unfolded by whoever reasons about the column); the entry itself is an opaque tree
+    p.assume(z3.Implies(guard, z3.Implies(S_.REG(re_, wk, E_, PV_), sp.den(elem, E_, PV_) == S_.DV(re_, wk, E_, PV_))))
+    p.assume(z3.Implies(guard, sp.wf(elem)))
+    forall_name(sp.ip, lambda nm: z3.Implies(z3.And(guard, sp.occ(elem, nm)), S_.OCC(re_, nm)))
+    if name_domain:
+        # definitional: DOMJ names "the entry compute_jacobian builds for (e, w) is inside its domain"
+        p.assume(z3.Implies(guard, DOMJ(re_, wk, E_, PV_) == sp.dom(elem, E_, PV_)))
+
+
+def row_value(sp, e, vs, allow_none=True, name_domain=False):
     """Result of a contract application: an optional sequence whose entries are opaque expressions meeting entry_ok."""
     ip = sp.ip
     n = ip.models.len_term(vs.n)
@@ -50,8 +72,7 @@ def row_value(sp, e, vs, allow_none=True):
         el = Opaque(ROWELEM(base, kt), "Expression")
         inr = z3.And(kt >= 0, kt < n)
         wk = FN(vs.get(kt).ref)
-        for g in entry_ok(sp, e, wk, el):
-            ip.path.assume(z3.Implies(inr, g))
+        entry_facts(sp, e, wk, el, inr, name_domain)
         return el
     seq = SSeq(n, get, "list", "jacobian row", tag=("jacrow", base))
     if not allow_none:
@@ -138,8 +159,7 @@ def install(reg, src):
             kt = k if not isinstance(k, int) else z3.IntVal(k)
             el = Opaque(ROWELEM(base, kt), "Expression")
             wk = FN(vs.get(kt).ref)
-            for g in entry_ok(sp, e, wk, el):
-                sp.ip.path.assume(g)
+            entry_facts(sp, e, wk, el, z3.BoolVal(True))
             return el
 
         def equal(ip2, appended, k):
@@ -237,7 +257,7 @@ def install(reg, src):
                 vs = varlist(c)
                 for e in es:
                     c.requires(sp.wf(e), name="well-formed scalar expression")
-                c.returns(lambda cc: PList([row_value(sp, e, vs, allow_none=False) for e in es]))
+                c.returns(lambda cc: PList([row_value(sp, e, vs, allow_none=False, name_domain=True) for e in es]))
 
                 def post(res):
                     if not isinstance(res, PList) or len(res.items) != len(es):
